@@ -454,6 +454,29 @@ func runReplay(path string) int {
 	if err != nil {
 		fatal("%v", err)
 	}
+	// C20 / C17-name counterexamples are objects, not nondet vectors
+	var obj map[string]interface{}
+	if json.Unmarshal(b, &obj) == nil && obj["kind"] != nil {
+		switch obj["kind"] {
+		case "race":
+			ok, out := c20Replay(fmt.Sprint(obj["thread_A"]), fmt.Sprint(obj["thread_B"]))
+			fmt.Println(tail(out, 1500))
+			if ok {
+				fmt.Printf("VIOLATION property=C20 replay=%s\n", path)
+				return 1
+			}
+			fmt.Println("no data race reported by go test -race")
+			return 0
+		case "name":
+			ok, out := c17ReplayName(fmt.Sprint(obj["name"]), fmt.Sprint(obj["rest"]))
+			fmt.Printf("name %q: %s\n", obj["name"], out)
+			if ok {
+				fmt.Printf("VIOLATION property=C17 replay=%s\n", path)
+				return 1
+			}
+			return 0
+		}
+	}
 	var entries []replayEntry
 	if err := json.Unmarshal(b, &entries); err != nil {
 		fatal("%v", err)
